@@ -8,4 +8,7 @@ arrays_check.run('C01', 'views',
                  ['Go runtime bounds checks and slice capacity rules are modelled (gslice len/cap), not verified',
                   'sub-array/whole-array fast-path writes are covered by the correspondence + abstract-spec oracle, not by a theorem (C01_bulk_write_partial)',
                   'values are small integers, exact in all 8 element types; the model runs once with V = Z'],
-                 allowed=['NEW','SLICE','GET','SET','GETN','SETN','APPLY','APPLYSLICE','COPYFROM','GET1','SET1','APPLY1','SHAPE','LEN'], use_iops=False, oracle='spec')
+                 allowed=['NEW','SLICE','GET','SET','GETN','SETN','APPLY','APPLYSLICE','COPYFROM','GET1','SET1','APPLY1','SHAPE','LEN','CONTIG','UNROLL'], use_iops=False, oracle='spec',
+                 # Contiguous() and Unroll() are used as read-only probes between the slices and the writes (a read must not
+                 # change what later views do); their own answers are C02's clauses and are not judged here
+                 unjudged=('CONTIG', 'UNROLL'))
